@@ -38,7 +38,7 @@ def run(ctx):
 D = {
 "c02": dict(title="C02 -- channels deliver each item exactly once, in order, to the right channel",
   cfgs='["GW_data", "GW_cb"] if ctx.quick else ["GW_data", "GW_cb", "GW_cb_recv", "GW_data_big"]', mutants='[]',
-  fam="c02_programs(rng, 10 if ctx.quick else 80)", own='["C02.", "C10.callback-item", "C10.callback-missed", "C08."]',
+  fam="c02_programs(rng, 10 if ctx.quick else 80)", own='["C02.", "C10.callback-item", "C10.callback-missed", "C08.", "C18.channel-id-handed-out-twice"]',
   line='["send", "_send", "to_io", "_local_receive", "receive", "setcallback", "new", "from_io"]',
   nontriv='lambda evs: sum(1 for e in evs if e["ev"] in ("deq", "cb")) >= 3',
   rule="generated channel programs (1-3 channels, both directions, 1-2 receiver threads or a callback per channel, two sender threads on one channel, channels passed over channels)",
